@@ -108,7 +108,11 @@ Perm(m, k, t) == [ty |-> "single", mods |-> <<K(m)>>, key |-> k, tomods |-> <<>>
 Progs6 == {<<Perm("J", "A", "B"), Perm("A", "J", "F13"), [ty |-> "reponly", mods |-> <<K("J")>>, key |-> "A", rep |-> r]>>: r \in {Disabled, [kind |-> "Special", tomods |-> <<>>, toterm |-> <<"F24">>, delay |-> 180, interval |-> 30]}}
           \cup {<<Perm("LEFTSHIFT", "RIGHTSHIFT", "B"), Perm("RIGHTSHIFT", "LEFTSHIFT", "F13"), [ty |-> "reponly", mods |-> <<K("LEFTSHIFT")>>, key |-> "RIGHTSHIFT", rep |-> Disabled]>>,
                  <<[ty |-> "reponly", mods |-> <<K("A")>>, key |-> "J", rep |-> Disabled], Perm("J", "A", "B")>>}
-Progs == SetToSeq(Progs1 \cup Progs2 \cup Progs3 \cup Progs4 \cup Progs5 \cup Progs6 \cup CharProgs)
+\* alias definitions AFTER a mapping that uses them (at every Size): all of them after it, and one definition before it with the rest after it -
+\* the meaning of a program does not depend on where in the file an alias is defined
+UsesAlias(it) == \E i \in 1..Len(it.mods): it.mods[i].alias
+Progs7 == UNION {UNION {{<<it>> \o ab, <<ab[1], it>> \o Tail(ab)}: it \in {q \in Plain(ab): UsesAlias(q)}}: ab \in AliasBlocks \ {<<>>}}
+Progs == SetToSeq(Progs1 \cup Progs2 \cup Progs3 \cup Progs4 \cup Progs5 \cup Progs6 \cup Progs7 \cup CharProgs)
 
 Sp0 == [bare |-> TRUE, lower |-> FALSE, explicit |-> FALSE]
 Sp1 == [bare |-> FALSE, lower |-> TRUE, explicit |-> TRUE]
